@@ -255,12 +255,15 @@ field("CompressionFormat.occupancy_so_far", "opt[int]")
 contract(CL, "CoordinateList.encodeCoord", types=dict(prev_ind="int", ind="int"), returns="list[int]", modifies=[],
          ensures={"C20": ["fresh(result)", "len(result) == 1", "result[0] == ind"]}, note="explicit coordinates")
 
+from .iterators import FMT_OK
+A_FMT_OK = FMT_OK("a")
+A_BOXES = "forall(lambda k: typeis(a.payloads[k], 'Payload'), 0, len(a.payloads))"
 ENC_MOD = ["list:self.coords", "list:self.payloads", "self.depth", "self.is_leaf", "self.fiber_occupancy", "any:OutList.g_state"]
 contract(CL, "CoordinateList.encodeFiber", mutant_skip=["output["],
          types=dict(self="CoordinateList", a="Fiber", dim_len="int", codec="Codec", depth="int", ranks="list[str]", output="OutDict",
                     output_tensor="U", shape="opt[U]"),
          returns="int",
-         requires=["depth == len(ranks) - 1", "depth >= 0", "wf(a)", "a.g_leaf", "not (self.coords is self.payloads)",
+         requires=["depth == len(ranks) - 1", "depth >= 0", "wf(a)", "a.g_leaf", "not Metrics.collecting", A_FMT_OK, A_BOXES, "not (self.coords is self.payloads)",
                    "not (ranks is self.coords)", "not (ranks is self.payloads)"],
          modifies=ENC_MOD,
          ensures={"C20": [
@@ -326,7 +329,8 @@ contract(BV, "Bitvector.encodeFiber", mutant_skip=["output["],
          types=dict(self="Bitvector", a="Fiber", dim_len="int", codec="Codec", depth="int", ranks="list[str]", output="OutDict",
                     output_tensor="OutTensor", shape="opt[U]"),
          returns="int",
-         requires=["depth == len(ranks) - 1", "depth >= 0", "dim_len >= 0", "wf(a)", "a.g_leaf", "not (ranks is self.payloads)",
+         requires=["depth == len(ranks) - 1", "depth >= 0", "dim_len >= 0", "wf(a)", "a.g_leaf", "not Metrics.collecting", A_FMT_OK, A_BOXES,
+                   "not (ranks is self.payloads)",
                    # coordinates are non-negative (a negative one would address the mask from its end)
                    "forall(lambda j: a.coords[j] >= 0, 0, len(a.coords))", "a.g_active0 >= 0"],
          raises={"IndexError": dict(when=None)},          # a presented coordinate at or beyond dim_len
